@@ -22,4 +22,9 @@ CaseOK(c) ==
     /\ c.ok => /\ c.geo_main = <<c.nt, c.It, c.n, c.I>>       \* geometry as configured ...
                /\ c.geo_other = <<c.nt, c.It, c.n, c.I>>      \* ... for every thread of the process,
                /\ c.geo_early = <<c.nt, c.It, c.n, c.I>>      \* also one that used Sentinel before initialisation
+    \* a rejected configuration is not the one in effect: statistics keep working (no panic), with one servable
+    \* geometry - whichever the code falls back to - for every thread
+    /\ ~c.ok => /\ ~("rej_bad" \in DOMAIN c)
+                /\ c.rej_other = c.rej_main /\ c.rej_early = c.rej_main
+                /\ Accept(c.rej_main[3], c.rej_main[4], c.rej_main[1], c.rej_main[2])
 =============================================================================
